@@ -395,6 +395,10 @@ def check_about(o):
     results["transform_about_centre"] = mt.transform_about_centre(obj, mt.Affine(T))
     if is_scale:
         results["scale_about_centre"] = mt.scale_about_centre(obj, lin[0, 0])
+        results["scale_about_centre(per-axis array of equal factors)"] = mt.scale_about_centre(obj, np.array([lin[0, 0], lin[1, 1]]))
+    elif lin[0, 1] == 0 and lin[1, 0] == 0:
+        # one factor per axis (the documented (n_dims,) form)
+        results["scale_about_centre(per-axis factors)"] = mt.scale_about_centre(obj, np.array([lin[0, 0], lin[1, 1]]))
     if is_rot:
         th = math.atan2(lin[1, 0], lin[0, 0])
         results["rotate_ccw_about_centre(deg)"] = mt.rotate_ccw_about_centre(obj, math.degrees(th))
